@@ -126,6 +126,9 @@ func (c *c01MatCase) build() (src string, binds map[string]any, ok bool) {
 		src = "{% case r %}{% when a0 %}W{% when 1, a0, r %}X{% else %}E{% endcase %}"
 	case "range":
 		src = "{% for i in (r..a0) %}{{ i }}{% endfor %}{{ (r..a0) | join }}{{ (r..a0) | size }}{% assign q = (r..a0) %}{{ q | first }}{{ q.b }}{{ q[0] }}"
+	case "range-first", "range-last", "range-size", "range-index":
+		// a range too large to be held in memory, used without a loop: an answer or an error, at once
+		src = map[string]string{"range-first": "{{ (r..a0) | first }}", "range-last": "{{ (r..a0) | last }}", "range-size": "{{ (r..a0) | size }}{{ (r..a0).size }}", "range-index": "{% assign q = (r..a0) %}{{ q[0] }}{{ q | reverse | first }}"}[c.Form]
 	case "include":
 		src = "{% include r %}"
 	case "object":
@@ -584,7 +587,7 @@ func TestC01(t *testing.T) {
 	}
 
 	// (b) matrix
-	mat := c01Matrix.On(col, fmt.Sprintf("bounded-exhaustive: every standard filter read from the repository's sources (%d) x receiver in U (%d boundary values of every kind and Go representation) x arity 0 and 1 (argument in U), arity 2 for filters that take two arguments (full U^2 in the thorough tier, a seeded sample in quick); every operator x U^2; index/property lookups, loop modifiers, case/when, ranges, include, object printing x U (x U). Oracle: no panic, output xor non-nil SourceError with callable accessors, no output with an error, returns promptly when no loop is spelled out. Every tuple is distinct by construction; ranges that could exceed 10^6 elements are excluded and counted", len(si.Filters), len(c01U)), false)
+	mat := c01Matrix.On(col, fmt.Sprintf("bounded-exhaustive: every standard filter read from the repository's sources (%d) x receiver in U (%d boundary values of every kind and Go representation) x arity 0 and 1 (argument in U), arity 2 for filters that take two arguments (full U^2 in the thorough tier, a seeded sample in quick); every operator x U^2; index/property lookups, loop modifiers, case/when, ranges, include, object printing x U (x U). Oracle: no panic, output xor non-nil SourceError with callable accessors, no output with an error, returns promptly when no loop is spelled out. Every tuple is distinct by construction; ranges that could exceed 10^6 elements are excluded from the forms that iterate or print them and counted; ranges beyond 2^31 elements (incl. those whose length overflows) are still given to first / last / size / index / reverse, where nothing needs to iterate", len(si.Filters), len(c01U)), false)
 	// every loop and range of the matrix is small (larger ones are excluded), so not returning is a violation
 	mat.Hang = func(c *c01MatCase) string { return "hang:" + c.Form }
 	idx := 0
@@ -627,6 +630,12 @@ func TestC01(t *testing.T) {
 			run(&c01MatCase{Form: "cols", R: r.Name, A: []string{a.Name}})
 			run(&c01MatCase{Form: "case", R: r.Name, A: []string{a.Name}})
 			run(&c01MatCase{Form: "range", R: r.Name, A: []string{a.Name}})
+			// ranges of more than 2^31 elements (incl. those whose length overflows) where nothing iterates
+			if r.Spec != nil && a.Spec != nil && r.Spec.K == "int" && a.Spec.K == "int" && r.Spec.U == 0 && a.Spec.U == 0 && a.Spec.I > r.Spec.I && uint64(a.Spec.I-r.Spec.I) > 1<<31 {
+				for _, f := range []string{"range-first", "range-last", "range-size", "range-index"} {
+					run(&c01MatCase{Form: f, R: r.Name, A: []string{a.Name}})
+				}
+			}
 		}
 	}
 	// arity 2
